@@ -52,7 +52,7 @@ inductive Out (α : Type) where
   | ok (a : α)
   | err (e : Err)
   | panic
-  deriving Repr
+  deriving Repr, DecidableEq
 
 namespace Out
 
